@@ -1,5 +1,5 @@
 """U2 - OsIpcSender::send (+ nested downsize), fragment arithmetic.  Verus, unbounded."""
-from vf.gen import Unit, Fn, Clause, Hint, Rule, Loop, DROP
+from vf.gen import Unit, Fn, Clause, Hint, Rule, Loop, DROP, AppendArg
 
 F = "src/platform/unix/mod.rs"
 IMPL = "impl OsIpcSender"
@@ -52,7 +52,7 @@ INV_COMMON = [
            "&& k.peer == k1.peer && k.sock == k1.sock"),
     Clause("unix.send/loop2.invariant.log", "failures_recoverable(k0.log, k.log)", ["C09", "C13"]),
     Clause("unix.send/loop2.invariant.own_copy_of_dedicated_receiver_closed_after_first_fragment",
-           "(byte_position > 0 ==> !k.own_rx.contains(ded)) && (dedicated_rx matches Some(x) ==> cell_val(&x.fd) == ded) && (byte_position == 0 ==> dedicated_rx is Some)", ["C09"]),
+           "(byte_position > 0 ==> !k.own_rx.contains(ded)) && (dedicated_rx matches Some(x) ==> cell_val(&x.fd) == ded) && (byte_position == 0 ==> dedicated_rx is Some) && !k.consumed.contains(ded)", ["C09", "C11"]),
     Clause("unix.send/loop2.invariant.nothing_sent_yet",
            "byte_position == 0 ==> k.q == k1.q && spec_first(sendbuf_size as nat) < data.len()", ["C13", "C01", "C18"]),
     Clause("unix.send/loop2.invariant.sent_prefix",
@@ -135,7 +135,7 @@ send = Fn(F, [IMPL, "send"], ret="r", extra_params="Tracked(k): Tracked<&mut K>"
         Hint("loop:2:after",
              "proof { assert(data@.subrange(0, data@.len() as int) == data@); }", "unix.send/ensures.ok_exact_message_once"),
     ],
-    rules=[R_SYS, R_FIRST, R_FOLLOW, R_CHANNEL, R_DROP],
+    rules=[R_SYS, R_FIRST, R_FOLLOW, R_CHANNEL, R_DROP, AppendArg("B27", r"\.consume_fd\(", "Tracked(&mut *k)", "descriptor leaving its owning receiver is recorded")],
     nested={"send_first_fragment": DROP, "send_followup_fragment": DROP, "downsize": downsize},
     attrs="#[verifier::loop_isolation(false)]",
     safety_props=["C18"], termination_props=["C09", "C13"])
